@@ -114,6 +114,13 @@ class HandlerModel:
         if z3.is_int_value(sig):
             k = sig.as_long()
             if k in (S['SEARCH_FOR_SUPER_SIGNAL'], S['EMPTY_SIGNAL']):
+                if k == S['SEARCH_FOR_SUPER_SIGNAL'] and getattr(self.w, 'faulty_super', False) and \
+                        c.branch(faulty(s), 'super-search-answered-with-None'):
+                    # C24: a handler without a final else returns no status to the super search and leaves the
+                    # cursor where it was
+                    g['g_bad'] = z3.BoolVal(True)
+                    c.pyghost['returned_none'] = True
+                    return None
                 if k == S['EMPTY_SIGNAL']:
                     c.prove('%s:protocol/empty-only-after-unhandled' % where, g['g_expect_empty'] == s, tags=('C02',))
                     g['g_expect_empty'] = NONE
@@ -447,6 +454,12 @@ def trans_contract(it, fn, args, kwargs):
     self, tp, max_index = args[0], args[1], args[2]
     for nm, f in trans_pre(it, self, tp, max_index):
         c.prove('dispatch:call-pre/trans_/%s' % nm, f, tags=('C01',))
+    if getattr(it.w, 'weak', False) and c.choose(2, 'trans_-meets-a-faulty-state') == 1:
+        # C24 (proved of the real body by the target trans_[weak contract]): a state on the way into the target that
+        # gives no status to the super search makes trans_ raise, before anything is entered
+        g['g_bad'] = z3.BoolVal(True)
+        c.pyghost['returned_none'] = True
+        raise Raised('HsmTopologyException')
     items = B.seq_items(it, tp)
     T, S = z3.Select(items, 0), z3.Select(items, 2)
     n_ex0 = g['g_n_ex']
@@ -477,6 +490,9 @@ def trans_specs():
     # ---- loop 1 (topology e): climb from T->super->super looking for S
     def inv1(it, env):
         c, g, S, T, items, n, mx = common(it, env)
+        if env['r'] is None:
+            # (C24) a handler gave no status to the super search and the loop went on
+            return [('status', z3.BoolVal(False))]
         ip, iq, r = c.to_int(env['ip']), c.to_int(env['iq']), c.to_int(env['r'])
         f = temp_fun(it, env['self'])
         SUPER, HANDLED, IGNORED = (it.w.statuses[k] for k in ('SUPER', 'HANDLED', 'IGNORED'))
@@ -492,6 +508,7 @@ def trans_specs():
                 ('source-not-on-path', z3.Implies(iq == 0, z3.ForAll([_k], z3.Implies(
                     z3.And(0 <= _k, _k <= ip), z3.Select(items, _k) != S), patterns=[z3.Select(items, _k)]))),
                 ('t-is-source-parent', z3.And(env['t'].e == parent(S), env['s'].e == S)),
+                ('every-state-so-far-answered-the-super-search', z3.Not(g['g_bad'])),
                 ('monitor-untouched', z3.And(g['g_cur'] == S, g['g_n_ex'] == c.pyghost['n_ex0'], g['g_n_en'] == 0,
                                              g['g_n_in'] == 0, g['g_phase'] != ENTERING, z3.Not(g['g_turned']),
                                              g['g_goal'] == T))]
@@ -501,6 +518,7 @@ def trans_specs():
         return depth(c.pyghost['T']) - c.to_int(env['ip']) + z3.If(c.to_int(env['r']) == it.w.statuses['SUPER'], 1, 0)
 
     s1 = LoopSpec(inv1, mods, var1, 'trans-e')
+    s1.ghost_modifies = ['g_bad']      # (C24) set only on the way to the HsmTopologyException
 
     # ---- loops 2 and 4: scan the recorded path for t
     def scan_inv(it, env):
@@ -549,6 +567,7 @@ def trans_specs():
         return depth(env['t'].e)
 
     s3 = _mon_mods(LoopSpec(inv3, mods, var3, 'trans-g'))
+    s3.ghost_modifies = [v for v in s3.ghost_modifies if v != 'g_bad']     # only states of the active configuration
     return {(TR, 1): s1, (TR, 2): s2, (TR, 3): s3, (TR, 4): s4}
 
 
@@ -786,6 +805,7 @@ def query_specs():
 # C24: the same loops under the WEAKENED handler contract (an init may name any state; an offer may return None)
 # =====================================================================================================
 MON_VARS.append('g_bad')
+faulty = z3.Function('faulty', Ref, z3.BoolSort())     # the state gives no status (None) to the super search
 DMAX = z3.Int('DMAX')          # the chart is finite: some bound on depth exists
 
 
